@@ -223,6 +223,9 @@ def clenshaw_qbfs(cs, usq, alphas=None):
     M = len(bs)-1
     prefix = 2 - 4 * x
     alphas[M] = bs[M]
+    if M == 0:
+        # a single term: S = b_0 P_0 = 2 b_0 (there is no alphas[1])
+        return (x * (1 - x)) * (2 * alphas[0])
     alphas[M-1] = bs[M-1] + prefix * alphas[M]
     for i in range(M-2, -1, -1):
         alphas[i] = bs[i] + prefix * alphas[i+1] - alphas[i+2]
@@ -271,8 +274,11 @@ def clenshaw_qbfs_der(cs, usq, j=1, alphas=None):
     # seed with j=0 (S, not its derivative)
     clenshaw_qbfs(cs, usq, alphas[0])
     for jj in range(1, j+1):
-        alphas[jj][M-j] = -4 * jj * alphas[jj-1][M-jj+1]
-        for n in range(M-2, -1, -1):
+        if M - jj < 0:
+            # derivatives of order greater than the degree vanish (alphas is zero-initialised)
+            break
+        alphas[jj][M-jj] = -4 * jj * alphas[jj-1][M-jj+1]
+        for n in range(M-jj-1, -1, -1):
             # this is hideous, and just expresses:
             # for the jth derivative, alpha_n is 2 - 4x * a_n+1 - a_n+2 - 4 j a_n+1^j-1
             alphas[jj][n] = prefix * alphas[jj][n+1] - alphas[jj][n+2] - 4 * jj * alphas[jj-1][n+1]
@@ -312,14 +318,19 @@ def compute_z_zprime_Qbfs(coefs, u, usq):
     """
     # clenshaw does its own u^2
     alphas = clenshaw_qbfs_der(coefs, usq, j=1)
-    S = 2 * (alphas[0][0] + alphas[0][1])
+    if len(coefs) == 1:
+        # a single term has no alphas[.][1]: S = 2 alpha_0 and S' (w.r.t. u^2) = 0
+        S = 2 * alphas[0][0]
+        Sprime = alphas[1][0] * 0
+    else:
+        S = 2 * (alphas[0][0] + alphas[0][1])
+        Sprime = alphas[1][0] + alphas[1][1]
     # Sprime should be two times the alphas, just like S, but as a performance
     # optimization, S = sum cn Qn u^2
     # we're doing d/du, so a prefix of 2u comes in front
     # and 2*u * (2 * alphas)
     # = 4*u*alphas
     # = do two in-place muls on Sprime for speed
-    Sprime = alphas[1][0] + alphas[1][1]
     Sprime *= 4
     Sprime *= u
 
